@@ -1,7 +1,7 @@
 """Registry: property id -> obligation groups and evidence metadata."""
 import importlib
 
-MODULES = ["iterators", "opseq", "router", "mrouter", "fplemmas", "pool", "trimesh", "trimesh2", "pflood", "cache", "status", "raster", "distances", "sweeps", "accessors", "wrappers", "snapshot", "spl", "basin", "boruvka", "orient", "orders", "orders_u", "kernel", "adi", "memsafety"]
+MODULES = ["iterators", "opseq", "router", "mrouter", "fplemmas", "pool", "trimesh", "trimesh2", "pflood", "cache", "status", "raster", "distances", "sweeps", "accessors", "wrappers", "snapshot", "spl", "basin", "boruvka", "orient", "orders", "orders_u", "kernel", "adi", "accum_b", "memsafety"]
 
 COMMON_TRUSTED = [
     "cbmc 6.11.0 + goto-instrument DFCC contract instrumentation + the SAT/SMT back end named per group",
